@@ -1,6 +1,6 @@
 (* C02 — no double spend or double resolution. *)
 From Coq Require Import ZArith List Bool.
-From Sia Require Import Prim.Result Prim.Tok Policy.Model Ledger.Types Ledger.Mid Ledger.Validate Ledger.Apply Ledger.Proofs Ledger.Spends Ledger.SpendsV1 Ledger.SpendsSF Ledger.Persist Ledger.Marks1 Ledger.Marks2 Ledger.Marks3 Ledger.Marks4 Ledger.Marks5 Ledger.Marks6 Ledger.Marks7.
+From Sia Require Import Prim.Result Prim.Tok Policy.Model Ledger.Types Ledger.Mid Ledger.Validate Ledger.Apply Ledger.Proofs Ledger.Spends Ledger.SpendsV1 Ledger.SpendsSF Ledger.Persist Ledger.Marks1 Ledger.Marks2 Ledger.Marks3 Ledger.Marks4 Ledger.Marks5 Ledger.Marks6 Ledger.Marks7 Ledger.Marks8 Ledger.Marks9 Ledger.Marks10.
 Import ListNotations.
 Open Scope Z_scope.
 
@@ -178,3 +178,32 @@ Theorem C02_consumed_siafund_never_again : forall H net vt pt se sd (kind_of : i
     (forall rs, In rs (t2_res t) -> Z.to_nat (p_leaf (rs_parent rs)) <> Z.to_nat lf0).
 Proof. exact consumed_sf_never_again. Qed.
 Print Assumptions C02_consumed_siafund_never_again.
+
+(* and for v2 contracts: the leaf of every contract an accepted block resolves is marked spent (the resolved diff is the
+   only contract diff that can point at the leaf: every entry of the contract slice is registered under its own ID at its
+   own index, and every assigned diff points at the live leaf of the contract with its ID) *)
+Theorem C02_resolved_leaf_marked : forall H net vt pt se sd s (kind_of : id -> kind) id0 lf0, kind_of id0 = KV2 ->
+  forall b s' m t0 rs0,
+  validate_block H net vt pt se sd s b = Ok tt -> apply_block net s b = Ok (s', m) -> b_txns b = [] -> b_expiring b = [] ->
+  Forall (Marks9.TxOK kind_of id0 lf0) (b_v2txns b) ->
+  Forall (fun p : id * sco => kind_of (fst p) = KSC) (b_payouts b) -> kind_of (b_foundation_id b) = KSC ->
+  In t0 (b_v2txns b) -> In rs0 (t2_res t0) -> v2_id (p_val (rs_parent rs0)) = id0 -> p_leaf (rs_parent rs0) = lf0 -> lf0 <> UNASSIGNED ->
+  SpentAt (s_leaves s') (Z.to_nat lf0).
+Proof. exact resolved_leaf_marked. Qed.
+Print Assumptions C02_resolved_leaf_marked.
+
+(* a resolved contract is never revised or resolved again across blocks *)
+Theorem C02_resolved_never_again : forall H net vt pt se sd (kind_of : id -> kind) id0 lf0 s b s1 m t0 rs0 bs s',
+  kind_of id0 = KV2 ->
+  validate_block H net vt pt se sd s b = Ok tt -> apply_block net s b = Ok (s1, m) -> b_txns b = [] -> b_expiring b = [] ->
+  Forall (Marks9.TxOK kind_of id0 lf0) (b_v2txns b) ->
+  Forall (fun p : id * sco => kind_of (fst p) = KSC) (b_payouts b) -> kind_of (b_foundation_id b) = KSC ->
+  In t0 (b_v2txns b) -> In rs0 (t2_res t0) -> v2_id (p_val (rs_parent rs0)) = id0 -> p_leaf (rs_parent rs0) = lf0 -> lf0 <> UNASSIGNED ->
+  chain H net vt pt se sd s1 bs s' ->
+  forall mm t, validate_txn2 H net vt pt se sd s' mm t = Ok tt ->
+    (forall i, In i (t2_sci t) -> p_leaf (i2_parent i) <> UNASSIGNED -> Z.to_nat (p_leaf (i2_parent i)) <> Z.to_nat lf0) /\
+    (forall i, In i (t2_sfi t) -> p_leaf (f2_parent i) <> UNASSIGNED -> Z.to_nat (p_leaf (f2_parent i)) <> Z.to_nat lf0) /\
+    (forall rv, In rv (t2_rev t) -> Z.to_nat (p_leaf (r2_parent rv)) <> Z.to_nat lf0) /\
+    (forall rs, In rs (t2_res t) -> Z.to_nat (p_leaf (rs_parent rs)) <> Z.to_nat lf0).
+Proof. exact resolved_never_again. Qed.
+Print Assumptions C02_resolved_never_again.
